@@ -134,35 +134,35 @@ variable {σ : Store} {b : Nat}
 /-- `(null? x)` is `(eqv? x '())`: true exactly for the empty list -/
 theorem null_spec (h : LibFrame σ b) (x : Value) (env : Nat) :
     ∃ σ', Applies σ (libProc "null?" b) [x] env (.ok (.bool (isNil x))) σ' ∧ σ.Ext σ' :=
-  papp_null b x σ env h
+  papp_null b x σ env h rfl
 
 example : ∃ σ', Applies libStore (libProc "null?" 0) [.nil] 0 (.ok (.bool true)) σ' ∧ libStore.Ext σ' :=
   null_spec libFrame_libStore .nil 0
 
 theorem caar_spec (h : LibFrame σ b) (x : Value) (env : Nat) :
-    ∃ σ', Applies σ (libProc "caar" b) [x] env (caarS x) σ' ∧ σ.Ext σ' := papp_caar b x σ env h
+    ∃ σ', Applies σ (libProc "caar" b) [x] env (caarS x) σ' ∧ σ.Ext σ' := papp_caar b x σ env h rfl
 theorem cadr_spec (h : LibFrame σ b) (x : Value) (env : Nat) :
-    ∃ σ', Applies σ (libProc "cadr" b) [x] env (cadrS x) σ' ∧ σ.Ext σ' := papp_cadr b x σ env h
+    ∃ σ', Applies σ (libProc "cadr" b) [x] env (cadrS x) σ' ∧ σ.Ext σ' := papp_cadr b x σ env h rfl
 theorem cdar_spec (h : LibFrame σ b) (x : Value) (env : Nat) :
-    ∃ σ', Applies σ (libProc "cdar" b) [x] env (cdarS x) σ' ∧ σ.Ext σ' := papp_cdar b x σ env h
+    ∃ σ', Applies σ (libProc "cdar" b) [x] env (cdarS x) σ' ∧ σ.Ext σ' := papp_cdar b x σ env h rfl
 theorem cddr_spec (h : LibFrame σ b) (x : Value) (env : Nat) :
-    ∃ σ', Applies σ (libProc "cddr" b) [x] env (cddrS x) σ' ∧ σ.Ext σ' := papp_cddr b x σ env h
+    ∃ σ', Applies σ (libProc "cddr" b) [x] env (cddrS x) σ' ∧ σ.Ext σ' := papp_cddr b x σ env h rfl
 theorem caaar_spec (h : LibFrame σ b) (x : Value) (env : Nat) :
-    ∃ σ', Applies σ (libProc "caaar" b) [x] env (caaarS x) σ' ∧ σ.Ext σ' := papp_caaar b x σ env h
+    ∃ σ', Applies σ (libProc "caaar" b) [x] env (caaarS x) σ' ∧ σ.Ext σ' := papp_caaar b x σ env h rfl
 theorem caadr_spec (h : LibFrame σ b) (x : Value) (env : Nat) :
-    ∃ σ', Applies σ (libProc "caadr" b) [x] env (caadrS x) σ' ∧ σ.Ext σ' := papp_caadr b x σ env h
+    ∃ σ', Applies σ (libProc "caadr" b) [x] env (caadrS x) σ' ∧ σ.Ext σ' := papp_caadr b x σ env h rfl
 theorem cadar_spec (h : LibFrame σ b) (x : Value) (env : Nat) :
-    ∃ σ', Applies σ (libProc "cadar" b) [x] env (cadarS x) σ' ∧ σ.Ext σ' := papp_cadar b x σ env h
+    ∃ σ', Applies σ (libProc "cadar" b) [x] env (cadarS x) σ' ∧ σ.Ext σ' := papp_cadar b x σ env h rfl
 theorem caddr_spec (h : LibFrame σ b) (x : Value) (env : Nat) :
-    ∃ σ', Applies σ (libProc "caddr" b) [x] env (caddrS x) σ' ∧ σ.Ext σ' := papp_caddr b x σ env h
+    ∃ σ', Applies σ (libProc "caddr" b) [x] env (caddrS x) σ' ∧ σ.Ext σ' := papp_caddr b x σ env h rfl
 theorem cdaar_spec (h : LibFrame σ b) (x : Value) (env : Nat) :
-    ∃ σ', Applies σ (libProc "cdaar" b) [x] env (cdaarS x) σ' ∧ σ.Ext σ' := papp_cdaar b x σ env h
+    ∃ σ', Applies σ (libProc "cdaar" b) [x] env (cdaarS x) σ' ∧ σ.Ext σ' := papp_cdaar b x σ env h rfl
 theorem cdadr_spec (h : LibFrame σ b) (x : Value) (env : Nat) :
-    ∃ σ', Applies σ (libProc "cdadr" b) [x] env (cdadrS x) σ' ∧ σ.Ext σ' := papp_cdadr b x σ env h
+    ∃ σ', Applies σ (libProc "cdadr" b) [x] env (cdadrS x) σ' ∧ σ.Ext σ' := papp_cdadr b x σ env h rfl
 theorem cddar_spec (h : LibFrame σ b) (x : Value) (env : Nat) :
-    ∃ σ', Applies σ (libProc "cddar" b) [x] env (cddarS x) σ' ∧ σ.Ext σ' := papp_cddar b x σ env h
+    ∃ σ', Applies σ (libProc "cddar" b) [x] env (cddarS x) σ' ∧ σ.Ext σ' := papp_cddar b x σ env h rfl
 theorem cdddr_spec (h : LibFrame σ b) (x : Value) (env : Nat) :
-    ∃ σ', Applies σ (libProc "cdddr" b) [x] env (cdddrS x) σ' ∧ σ.Ext σ' := papp_cdddr b x σ env h
+    ∃ σ', Applies σ (libProc "cdddr" b) [x] env (cdddrS x) σ' ∧ σ.Ext σ' := papp_cdddr b x σ env h rfl
 
 /-- what the compositions select from a structure that is long enough, and the error when it is
 too short -/
@@ -186,7 +186,7 @@ example : ∃ σ', Applies libStore (libProc "cdddr" 0) [Value.ofList [num 1, nu
 /-- `(list a …)` returns the list of its arguments -/
 theorem list_spec (h : LibFrame σ b) (args : List Value) (env : Nat) :
     ∃ σ', Applies σ (libProc "list" b) args env (.ok (Value.ofList args)) σ' ∧ σ.Ext σ' :=
-  papp_list b args σ env h
+  papp_list b args σ env h rfl
 
 example : ∃ σ', Applies libStore (libProc "list" 0) [num 1, num 2, num 3] 0 (.ok l123) σ' ∧ libStore.Ext σ' :=
   list_spec libFrame_libStore _ 0
@@ -198,7 +198,7 @@ DEVIATION: a negative or non-integer `k` never satisfies `(= k 0)`; the recursio
 the whole list and ends in the `cdr` error (not proved here: outside the domain). -/
 theorem list_tail_spec (h : LibFrame σ b) (x : Value) (k : Nat) (hk : (k : Int) ≤ 2147483647) (env : Nat) :
     ∃ σ', Applies σ (libProc "list-tail" b) [x, .num (.int k)] env (listTailS x k) σ' ∧ σ.Ext σ' :=
-  papp_list_tail b k x hk σ env h
+  papp_list_tail b k x hk σ env h rfl
 
 example : ∃ σ', Applies libStore (libProc "list-tail" 0) [l123, num 2] 0 (.ok (Value.ofList [num 3])) σ' ∧
     libStore.Ext σ' :=
@@ -212,7 +212,7 @@ example : ∃ σ', Applies libStore (libProc "list-tail" 0) [l123, num 4] 0 (.er
 length (`listRefS_short`) -/
 theorem list_ref_spec (h : LibFrame σ b) (x : Value) (k : Nat) (hk : (k : Int) ≤ 2147483647) (env : Nat) :
     ∃ σ', Applies σ (libProc "list-ref" b) [x, .num (.int k)] env (listRefS x k) σ' ∧ σ.Ext σ' :=
-  papp_list_ref b k x hk σ env h
+  papp_list_ref b k x hk σ env h rfl
 
 example : ∃ σ', Applies libStore (libProc "list-ref" 0) [l123, num 1] 0 (.ok (num 2)) σ' ∧ libStore.Ext σ' :=
   list_ref_spec libFrame_libStore l123 1 (by decide) 0
@@ -223,7 +223,7 @@ example : ∃ σ', Applies libStore (libProc "list-ref" 0) [l123, num 3] 0 (.err
 (`lastPairS_ofList`); an error on `()` and on any other non-pair -/
 theorem last_pair_spec (h : LibFrame σ b) (x : Value) (env : Nat) :
     ∃ σ', Applies σ (libProc "last-pair" b) [x] env (lastPairS x) σ' ∧ σ.Ext σ' :=
-  papp_last_pair b x σ env h
+  papp_last_pair b x σ env h rfl
 
 example : ∃ σ', Applies libStore (libProc "last-pair" 0) [l123] 0 (.ok (Value.ofList [num 3])) σ' ∧ libStore.Ext σ' :=
   last_pair_spec libFrame_libStore l123 0
@@ -235,11 +235,11 @@ here), `#f` if the proper list has none (`memS_ofList`); if `lst` is improper an
 before its tail matches, the `car` type error -/
 theorem memq_spec (h : LibFrame σ b) (obj lst : Value) (env : Nat) :
     ∃ σ', Applies σ (libProc "memq" b) [obj, lst] env (memS obj lst) σ' ∧ σ.Ext σ' :=
-  papp_memq b obj lst σ env h
+  papp_memq b obj lst σ env h rfl
 
 theorem memv_spec (h : LibFrame σ b) (obj lst : Value) (env : Nat) :
     ∃ σ', Applies σ (libProc "memv" b) [obj, lst] env (memS obj lst) σ' ∧ σ.Ext σ' :=
-  papp_memv b obj lst σ env h
+  papp_memv b obj lst σ env h rfl
 
 example : ∃ σ', Applies libStore (libProc "memv" 0) [num 2, l123] 0 (.ok (Value.ofList [num 2, num 3])) σ' ∧
     libStore.Ext σ' :=
@@ -251,29 +251,57 @@ example : memS (num 7) (.pair (num 1) (num 2)) = .error typeErr := rfl
 /-- `(list? x)`: `#t` exactly for the proper lists (`isProperList_iff`) -/
 theorem list_pred_spec (h : LibFrame σ b) (x : Value) (env : Nat) :
     ∃ σ', Applies σ (libProc "list?" b) [x] env (.ok (.bool (isProperList x))) σ' ∧ σ.Ext σ' :=
-  papp_list_pred b x σ env h
+  papp_list_pred b x σ env h rfl
 
 example : ∃ σ', Applies libStore (libProc "list?" 0) [l123] 0 (.ok (.bool true)) σ' ∧ libStore.Ext σ' :=
   list_pred_spec libFrame_libStore l123 0
 example : isProperList (.pair (num 1) (num 2)) = false := rfl
 
-/-- `(equal? x y)`: structural equality on pairs with `eqv?` at the leaves (`equalS`).
-DEVIATION from R7RS: vectors are leaves — two vectors are `equal?` only if they are the same
-object, whatever they contain. -/
-theorem equal_spec (h : LibFrame σ b) (x y : Value) (env : Nat) :
-    ∃ σ', Applies σ (libProc "equal?" b) [x, y] env (.ok (.bool (equalS x y))) σ' ∧ σ.Ext σ' :=
-  papp_equal b x y σ env h
+/-- `(equal? x y)`: structural equality on pairs AND vectors — two vectors are `equal?` when their
+cells in the store have the same length and pairwise `equal?` items, read from the store
+(mutability ignored) — with `eqv?` at the other leaves. Pairs may contain vectors and vectors
+pairs, to any depth.
+RESTRICTION: vectors are store cells and can be cyclic, and the comparison of cyclic structures
+does not terminate; the theorem is about the comparisons that are finite: `equalS σ n x y = some r`
+says that the comparison, followed to nesting depth `n`, has the outcome `r` (for data without
+vectors `n` = the depth of `x` suffices; `equalS` is `none` beyond the bound and for a dangling
+vector reference). Vector lengths are assumed to be in the `i32` range of the interpreter's
+integers (the index arithmetic of the helper `vector-equal-from?`). -/
+theorem equal_spec (h : LibFrame σ b)
+    (hfit : ∀ (i : Nat) (c : VecCell), σ.vecs[i]? = some c → (c.items.length : Int) ≤ 2147483647)
+    (x y : Value) (n : Nat) (r : Bool) (hr : equalS σ n x y = some r) (env : Nat) :
+    ∃ σ', Applies σ (libProc "equal?" b) [x, y] env (.ok (.bool r)) σ' ∧ σ.Ext σ' :=
+  papp_equal b σ hfit n x y r hr σ env h rfl
 
 example : ∃ σ', Applies libStore (libProc "equal?" 0) [l123, l123] 0 (.ok (.bool true)) σ' ∧ libStore.Ext σ' :=
-  equal_spec libFrame_libStore l123 l123 0
-example : equalS l123 (Value.ofList [num 1, num 2]) = false ∧ equalS (.str "a") (.str "a") = true ∧
-    equalS (.vec 0) (.vec 1) = false := ⟨by decide, by decide, by decide⟩
+  equal_spec libFrame_libStore (fun i c h => by simp [libStore] at h) l123 l123 4 true (by decide) 0
+example : equalS libStore 4 l123 (Value.ofList [num 1, num 2]) = some false ∧
+    equalS libStore 1 (.str "a") (.str "a") = some true ∧ equalS libStore 2 l123 l123 = none :=
+  ⟨by decide, by decide, by decide⟩
+
+/-- a store with three vectors: `#(1 2)` (mutable), `#(1 2)` (a literal, immutable), `#(1 (3))` -/
+def vecStore : Store :=
+  { libStore with vecs := #[⟨true, [num 1, num 2]⟩, ⟨false, [num 1, num 2]⟩,
+      ⟨true, [num 1, Value.ofList [num 3]]⟩] }
+
+/-- `(equal? (list v0 v2) (list v1 v2))` is `#t`: vectors inside lists, a list inside a vector,
+mutability ignored; `(equal? v0 v2)` is `#f` -/
+example : (∃ σ', Applies vecStore (libProc "equal?" 0) [Value.ofList [.vec 0, .vec 2], Value.ofList [.vec 1, .vec 2]] 0
+      (.ok (.bool true)) σ' ∧ vecStore.Ext σ') ∧
+    (∃ σ', Applies vecStore (libProc "equal?" 0) [.vec 0, .vec 2] 0 (.ok (.bool false)) σ' ∧ vecStore.Ext σ') := by
+  have hl : LibFrame vecStore 0 := LibFrame.of_defs rfl
+  have hfit : ∀ (i : Nat) (c : VecCell), vecStore.vecs[i]? = some c → (c.items.length : Int) ≤ 2147483647 := by
+    intro i c h
+    have hm := Array.mem_of_getElem? h
+    simp only [vecStore, List.mem_toArray, List.mem_cons, List.not_mem_nil, or_false] at hm
+    rcases hm with rfl | rfl | rfl <;> decide
+  exact ⟨equal_spec hl hfit _ _ 6 true (by decide) 0, equal_spec hl hfit _ _ 3 false (by decide) 0⟩
 
 /-- `(make-list k fill)` for an integer `k` (`i32`): `k` copies of `fill`; none when `k ≤ 0`
 (`makeListS_nonpos`) -/
 theorem make_list_spec (h : LibFrame σ b) (k : Int) (hk : k ≤ 2147483647) (fill : Value) (env : Nat) :
     ∃ σ', Applies σ (libProc "make-list" b) [.num (.int k), fill] env (.ok (makeListS k fill)) σ' ∧ σ.Ext σ' :=
-  papp_make_list b fill k.toNat k rfl hk σ env h
+  papp_make_list b fill k.toNat k rfl hk σ env h rfl
 
 example : ∃ σ', Applies libStore (libProc "make-list" 0) [num 2, num 7] 0 (.ok (Value.ofList [num 7, num 7])) σ' ∧
     libStore.Ext σ' :=
@@ -288,8 +316,8 @@ procedure recurses through the native `apply`. -/
 theorem append_spec (h : LibFrame σ b) (args : List Value) (env : Nat) :
     ∃ σ', Applies σ (libProc "append" b) args env (appendE args) σ' ∧ σ.Ext σ' := by
   cases args with
-  | nil => exact papp_append_nil b σ env h
-  | cons l rest => exact papp_append b rest l σ env h
+  | nil => exact papp_append_nil b σ env h rfl
+  | cons l rest => exact papp_append b rest l σ env h rfl
 
 example : ∃ σ', Applies libStore (libProc "append" 0) [] 0 (.ok .nil) σ' ∧ libStore.Ext σ' :=
   append_spec libFrame_libStore [] 0
@@ -379,15 +407,15 @@ example : ∃ σ', Applies libStore (libProc "map" 0) [.builtin .car, Value.ofLi
   obtain ⟨r, σ', h₁, h₂, _⟩ := map_spec (K := fun σ => LibFrame σ 0) (f := .builtin .car) libFrame_libStore
     libFrame_libStore (Value.ofList [Value.ofList [num 1], Value.ofList [num 2]])
     (ProcArg.of_papp (g := fun args => carS (args.headD .nil)) rfl
-      fun args h => by obtain ⟨x, _, rfl⟩ := h; exact PApp.car) 0
-  obtain ⟨rfl, e⟩ := mapM_of_papp (g := carS) (fun x => PApp.car) h₂ libFrame_libStore
+      fun V args h => by obtain ⟨x, _, rfl⟩ := h; exact PApp.car) 0
+  obtain ⟨rfl, e⟩ := mapM_of_papp (g := carS) (fun V x => PApp.car) h₂ libFrame_libStore
   exact ⟨σ', h₁, e⟩
 example : ∃ σ', Applies libStore (libProc "map" 0) [.builtin .car, l123] 0 (.error typeErr) σ' := by
   obtain ⟨r, σ', h₁, h₂, _⟩ := map_spec (K := fun σ => LibFrame σ 0) (f := .builtin .car) libFrame_libStore
     libFrame_libStore l123
     (ProcArg.of_papp (g := fun args => carS (args.headD .nil)) rfl
-      fun args h => by obtain ⟨x, _, rfl⟩ := h; exact PApp.car) 0
-  obtain ⟨rfl, e⟩ := mapM_of_papp (g := carS) (fun x => PApp.car) h₂ libFrame_libStore
+      fun V args h => by obtain ⟨x, _, rfl⟩ := h; exact PApp.car) 0
+  obtain ⟨rfl, e⟩ := mapM_of_papp (g := carS) (fun V x => PApp.car) h₂ libFrame_libStore
   exact ⟨σ', h₁⟩
 
 /-- `(fold-right cons '() '(1 2 3))` is `(1 2 3)`; `(fold-left cons '() '(1 2 3))` is `(3 2 1)` -/
